@@ -563,4 +563,10 @@ impl Prop for C11P {
     fn worker(&self, _excl: &[String]) -> Box<dyn WorkerState> {
         Box::new(W)
     }
+    fn timeout_ms(&self) -> u64 {
+        // a history compiles up to a dozen packages and starts threads: on a machine that is busy with
+        // other work (load far above the number of cores) one history was seen to take more than the
+        // default 20 s
+        120_000
+    }
 }
